@@ -86,6 +86,10 @@ def returned_info(cfg, fnode):
             third = n.stmt.value.elts[2]
             if isinstance(third, ast.Name) and third.id in dicts:
                 out.append((n, dicts[third.id]))
+            elif isinstance(third, ast.Dict):
+                here = [(n, v) for k, v in zip(third.keys, third.values) if isinstance(k, ast.Constant) and k.value == "converged"]
+                if here:
+                    out.append((n, here))
     return out
 
 
@@ -617,10 +621,12 @@ def rule_d(ctx):
     pdef = env.get(pv.id) if isinstance(pv, ast.Name) else None
     ctx.ob(R, f.qname, "pressure is reshaped in Fortran order", pdef is not None and not isinstance(pdef, tuple) and "order='F'" in norm(pdef) and ".reshape(self.grid.shape" in norm(pdef),
            norm(pdef) if pdef is not None and not isinstance(pdef, tuple) else "", f.node)
-    fm = [norm(v) for k, v in env.items() if not isinstance(v, tuple) and norm(v).startswith("np.ravel(")]
-    ctx.ob(R, f.qname, "mass difference is flattened in Fortran order", any(x.endswith(", 'F')") for x in fm), str(fm), f.node)
-    mds = [v for v in env.values() if not isinstance(v, tuple) and norm(v) == f"{f.params[2]}.img - {f.params[1]}.img"]
-    ctx.ob(R, f.qname, "mass difference is destination minus source", len(mds) == 1, str([norm(v) for v in env.values() if not isinstance(v, tuple) and '.img' in norm(v)][:3]), f.node)
+    from ..flow import expand
+    sc = [c for c in ast.walk(f.node) if isinstance(c, ast.Call) and norm(c.func) == "self._solve" and len(c.args) == 1]
+    arg = norm(expand(f.node, sc[0].args[0])) if len(sc) == 1 else ""
+    dm = f"{f.params[2]}.img - {f.params[1]}.img"
+    ctx.ob(R, f.qname, "mass difference is flattened in Fortran order", arg in (f"np.ravel({dm}, 'F')", f"np.ravel({dm}, order='F')", f"({dm}).ravel('F')", f"({dm}).ravel(order='F')", f"({dm}).flatten('F')", f"({dm}).flatten(order='F')"), arg, f.node)
+    ctx.ob(R, f.qname, "mass difference is destination minus source", dm in arg and arg.count(".img") == 2, arg, f.node)
     ctx.floor(R, 1)
 
 
